@@ -91,6 +91,8 @@ func isNilValue(v Value) bool {
 		return x.b == nil
 	case *MapV:
 		return x == nil
+	case *ChanV:
+		return x == nil
 	case *Closure:
 		return x == nil
 	case *ssa.Function:
